@@ -430,7 +430,7 @@ Proof.
   (* the core after a send: the sender is active, so inEvents is open *)
   all: try (
     assert (Hic : in_closed (co s) = false) by
-      (destruct (in_closed (co s)) eqn:E; [|reflexivity]; exfalso; apply K8 in E;
+      (destruct (in_closed (co s)) eqn:E; [|reflexivity]; exfalso; destruct K8 as [K8a _]; specialize (K8a eq_refl);
        pose proof (K1 _ _ Hth) as Tt; unfold tinv3, exp_active, async_active in Tt; rewrite Hpc in Tt;
        destruct (6 <=? stage s) eqn:E6; destruct (9 <=? stage s) eqn:E9; cbn in Tt; try discriminate Tt;
        try apply Nat.leb_gt in E6; try apply Nat.leb_gt in E9; lia);
@@ -440,8 +440,12 @@ Proof.
   all: try (
     cbn [cstep] in Hcs;
     first
-    [ destruct (closing (co s)) eqn:E; [apply K7 in E; lia|]
-    | destruct (in_closed (co s)) eqn:E; [apply K8 in E; lia|] ];
+    [ assert (E : closing (co s) = false)
+        by (destruct (closing (co s)) eqn:E; [exfalso; destruct K7 as [Kx _]; specialize (Kx eq_refl); lia|reflexivity]);
+      rewrite E in Hcs
+    | assert (E : in_closed (co s) = false)
+        by (destruct (in_closed (co s)) eqn:E; [exfalso; destruct K8 as [Kx _]; specialize (Kx eq_refl); lia|reflexivity]);
+      rewrite E in Hcs ];
     inv_some; csimp;
     first [ assumption
           | (split; intro Hx; first [lia | reflexivity | (apply K7; lia) | (apply K7 in Hx; lia) | (apply K8 in Hx; lia) | (apply K8; lia) | congruence]) ]; fail).
